@@ -131,6 +131,10 @@ def parse_mc(outp):
     if m:
         res["generated"], res["distinct"] = int(m[-1][0]), int(m[-1][1])
         res["left"] = int(m[-1][2])
+    if not m:
+        m = re.findall(r"Progress\(\d+\) at .*?: ([\d,]+) states generated .*?, ([\d,]+) distinct", txt)
+        if m:
+            res["generated"], res["distinct"] = int(m[-1][0].replace(",", "")), int(m[-1][1].replace(",", ""))
     if "Model checking completed. No error has been found." in txt:
         res["ok"] = True
     m = re.search(r"Invariant (\w+) is violated", txt)
